@@ -1,5 +1,6 @@
 import OVM.IO.Ovmb.FramingLemmas
 import OVM.IO.Ovmb.RoundTripExample
+import OVM.IO.Ovmb.RoundTripInterleavedExample
 import OVM.IO.Ovmb.RoundTripPermitted
 import OVM.IO.Ovmb.RoundTripWriterLayout
 /-
@@ -34,13 +35,27 @@ import OVM.IO.Ovmb.RoundTripWriterLayout
   `Encodes (encode F) F` (`ValidLayout (writerLayout F) F` and `encodeWith (writerLayout F) F = encode F`;
   OVM/IO/Ovmb/RoundTripWriterLayout.lean).
   **Permitted encodings into tetrahedral / hexahedral targets or with topology check**:
-  `permitted_roundtrip_ordered` — every valid layout that writes face spans after all edges and cell spans after all
-  faces (`topoOrdered`), for every configuration with `Accepts cfg F`; `permitted_roundtrip_admitted` — any valid
-  layout, given acceptance of each span against the edges / faces read so far (`AdmAll`).
-  NOT a theorem here (evaluated by the judge on every generated mesh and layout, tools/props/io_ovmb.py):
-  deriving `AdmAll` from `Accepts` for layouts that interleave edge, face and cell spans (acceptance of a face then
-  has to be transported from the full edge list to a prefix; the hexahedral ordering oracle sees the face list
-  read so far).
+  `permitted_roundtrip_any_layout` — EVERY valid layout (edge, face and cell spans interleaved in any way the
+  format permits; no ordering condition), every target kind, topology check on or off, for every configuration with
+  `Accepts cfg F`: `decode cfg (encodeWith L F) = .ok F`; `permitted_roundtrip_accepting` is the same statement
+  over `Encodes bytes F`.  Why it holds: (1) `ValidLayout` lets a face span reference only halfedges of edges
+  written EARLIER (`pieceOk`: handles `< 2 * cur.e`; the reader range-checks handles against the entities read so
+  far, not the header counts), likewise cells and faces, so every face read so far uses only edges read so far
+  (`FClosed`); (2) `add_face` / `add_cell` — loop check, valence 3 / 4, closed-surface check, distinct-vertex
+  guard, parallel-halfedge guard, opposite-pairs guard — read only the edges of the face's halfedges resp. the
+  faces of the cell's halffaces and the edges of those (`addFace_congr`, `addCell_transport`), so the verdict
+  `Accepts` records for the complete lists is the verdict on the prefix the reader has (`adm_of_accepts`).
+  Only hypothesis beyond `Accepts`: for a HEXAHEDRAL target WITH topology check the ordering oracle
+  `cfg.hexOrder` (abstract in the model) must be local — `HexLocal`: its answer for a six-halfface cell is the same
+  on a prefix of the face list holding the cell's faces as on the full list.  The oracle the compiled judge
+  compares with the C++ (`Judge.hexOrderStd`) is proved local (`judge_cfg_hexLocal`), so
+  `permitted_roundtrip_any_layout_judge` has no such hypothesis; neither have polyhedral / tetrahedral targets
+  or reads without topology check.  `hexLocal_needed`: the hypothesis cannot be dropped for an arbitrary oracle
+  (a non-local one accepts the complete two-cube mesh and refuses a valid interleaved layout of it).
+  Lemmas: OVM/IO/Ovmb/RoundTrip{Local,Interleaved,HexStd,InterleavedExample}.lean.
+  Special cases kept: `permitted_roundtrip_ordered` (layouts with `topoOrdered`, no `HexLocal` needed),
+  `permitted_roundtrip_admitted` (any valid layout, given acceptance of each span against the edges / faces read
+  so far, `AdmAll`).
 -/
 namespace OVM.Props.C06
 open OVM.Ovmb OVM.Gen.Ovmb Dec
@@ -75,6 +90,53 @@ theorem permitted_roundtrip_admitted (cfg : Cfg) (F : File) (L : Layout) (hwf : 
     (htet : cfg.kind = .tet → F.topo = topoTypeTetrahedral) (hhex : cfg.kind = .hex → F.topo = topoTypeHexahedral)
     (hadm : AdmAll cfg F {} L.pieces) : decode cfg (encodeWith L F) = .ok F :=
   decode_encodeWith_adm cfg F L hwf hval hsize htet hhex hadm
+
+/-- **every permitted encoding into every accepting target**: every valid layout — edge, face and cell spans
+    interleaved in any way the format permits, no ordering condition — reads to the same mesh for every reading
+    configuration that accepts the file's faces and cells as written: polyhedral, tetrahedral and hexahedral
+    targets, topology check on or off.  Hypotheses: `F` well formed, `L` valid for `F`, the bytes shorter than
+    2^64, `Accepts cfg F`, and — only for a hexahedral target read with topology check — the ordering oracle is
+    local (`HexLocal`: it reads only the faces of the halffaces it is given). -/
+theorem permitted_roundtrip_any_layout (cfg : Cfg) (F : File) (L : Layout) (hwf : WFFile F = true)
+    (hval : ValidLayout L F = true) (hsize : (encodeWith L F).length < 2 ^ 64) (hacc : Accepts cfg F)
+    (hloc : cfg.kind = .hex → cfg.topoCheck = true → HexLocal cfg) : decode cfg (encodeWith L F) = .ok F :=
+  decode_encodeWith_any cfg F L hwf hval hsize hacc hloc
+
+/-- the same over the format relation: every byte string the format description permits for `F` -/
+theorem permitted_roundtrip_accepting (cfg : Cfg) (F : File) (bytes : Bytes) (hwf : WFFile F = true)
+    (henc : Encodes bytes F) (hsize : bytes.length < 2 ^ 64) (hacc : Accepts cfg F)
+    (hloc : cfg.kind = .hex → cfg.topoCheck = true → HexLocal cfg) : decode cfg bytes = .ok F := by
+  obtain ⟨L, hval, hb⟩ := henc
+  subst hb
+  exact decode_encodeWith_any cfg F L hwf hval hsize hacc hloc
+
+/-- for the reading configurations the compiled judge compares with the C++ (`Judge.mkCfg k tc`, every mesh kind,
+    topology check on or off, the concrete `check_halfface_ordering`) no hypothesis on the oracle remains -/
+theorem permitted_roundtrip_any_layout_judge (k : MeshKind) (tc : Bool) (F : File) (L : Layout)
+    (hwf : WFFile F = true) (hval : ValidLayout L F = true) (hsize : (encodeWith L F).length < 2 ^ 64)
+    (hacc : Accepts (Judge.mkCfg k tc) F) : decode (Judge.mkCfg k tc) (encodeWith L F) = .ok F :=
+  decode_encodeWith_any _ F L hwf hval hsize hacc (fun _ _ => judge_cfg_hexLocal k tc)
+
+/-- `HexLocal` cannot be dropped from `permitted_roundtrip_any_layout` (a statement about the model's abstract
+    oracle, evaluated on one input): a hexahedral configuration whose ordering step depends on how many faces the
+    mesh holds (`Example.nonLocalCfg`) accepts every face and cell of the two-cube file, the layout "first cube
+    complete, then the second" is valid and short, and the read is refused.  With the judge's (local) ordering
+    check the same bytes read to the same mesh. -/
+theorem hexLocal_needed :
+    WFFile Example.twoCubes = true ∧ ValidLayout Example.twoCubesLayout Example.twoCubes = true ∧
+    (encodeWith Example.twoCubesLayout Example.twoCubes).length < 2 ^ 64 ∧
+    Accepts Example.nonLocalCfg Example.twoCubes ∧
+    decode Example.nonLocalCfg (encodeWith Example.twoCubesLayout Example.twoCubes) ≠ .ok Example.twoCubes ∧
+    decode Example.hexCfg (encodeWith Example.twoCubesLayout Example.twoCubes) = .ok Example.twoCubes := by
+  have hlen : (encodeWith Example.twoCubesLayout Example.twoCubes).length < 2 ^ 64 := by
+    rw [Example.twoCubesLayout_length]; decide
+  refine ⟨Example.twoCubes_wf, Example.twoCubesLayout_valid, hlen, Example.twoCubes_accepts_nonLocal, ?_,
+    permitted_roundtrip_any_layout_judge .hex true _ _ Example.twoCubes_wf Example.twoCubesLayout_valid hlen
+      Example.twoCubes_accepts⟩
+  intro h
+  have := Example.twoCubes_nonLocal_rejected
+  rw [h] at this
+  cases this
 
 /-- **the bytes the writer produces are one of the encodings the format description permits** -/
 theorem writer_bytes_permitted (F : File) (hwf : WFFile F = true) : Encodes (encode F) F :=
@@ -177,6 +239,21 @@ example : decode Example.tetCfg (encodeWith Example.altLayout Example.tetFile) =
     (by rw [Example.altLayout_length]; decide) Example.tetFile_accepts (by decide)
 example : (encodeWith Example.altLayout Example.tetFile).length ≠ (encode Example.tetFile).length := by
   rw [Example.altLayout_length, Example.tetFile_length]; decide
+
+/-! non-vacuity of `permitted_roundtrip_any_layout` (evaluation on two inputs, a test): `Example.interLayout` writes
+    the one-tetrahedron file as three edges, the face that uses only these, the directory, the other three edges,
+    the other three faces, the cell; `Example.cubeLayout` writes a one-cube hexahedral file as eleven edges, one
+    face, the twelfth edge, five faces, the cell.  Both are valid, neither is `topoOrdered` (so neither is covered
+    by `permitted_roundtrip_ordered`), and they read to the same mesh into a tetrahedral resp. hexahedral mesh with
+    topology check (the latter under the judge's ordering check, which accepts the cell as written) -/
+example : decode Example.tetCfg (encodeWith Example.interLayout Example.tetFile) = .ok Example.tetFile :=
+  permitted_roundtrip_any_layout _ _ _ Example.tetFile_wf Example.interLayout_valid
+    (by rw [Example.interLayout_length]; decide) Example.tetFile_accepts (by intro h; cases h)
+example : topoOrdered Example.tetFile {} Example.interLayout.pieces = false := Example.interLayout_not_ordered
+example : decode Example.hexCfg (encodeWith Example.cubeLayout Example.cubeFile) = .ok Example.cubeFile :=
+  permitted_roundtrip_any_layout_judge .hex true _ _ Example.cubeFile_wf Example.cubeLayout_valid
+    (by rw [Example.cubeLayout_length]; decide) Example.cubeFile_accepts
+example : topoOrdered Example.cubeFile {} Example.cubeLayout.pieces = false := Example.cubeLayout_not_ordered
 
 /-! test on concrete data (labelled as a test): the file of the empty mesh is header + EOF chunk -/
 example : (encode ⟨topoTypePolyhedral, [], [], [], [], []⟩).length = sizeFileHeader + sizeChunkHeader := by decide
